@@ -757,6 +757,8 @@ class KindInterp:
     def _index_ok(self, idx: Any) -> bool:
         if isinstance(idx, Tup):
             return all(self._index_ok(x) for x in idx.items)
+        if isinstance(idx, UList):
+            return self._index_ok(idx.elem)  # a tuple of index entries built by a comprehension
         return isinstance(idx, (Py, Par, Zero, Struct))
 
     def index(self, base: Any, idx: Any, node: ast.AST) -> Any:
